@@ -8,6 +8,21 @@ use deserr::{take_cf_content, DeserializeError, Deserr, ErrorKind, IntoValue, Va
 use std::collections::{BTreeMap, BTreeSet, HashMap, HashSet};
 use std::convert::Infallible;
 
+/// A user-defined map key type, generic over a (path-qualified) type: parses and prints like `u8`.
+#[derive(Debug, Clone, PartialEq, Eq, Hash, PartialOrd, Ord)]
+pub struct Gk<T>(pub u8, pub std::marker::PhantomData<T>);
+impl<T> std::str::FromStr for Gk<T> {
+    type Err = std::num::ParseIntError;
+    fn from_str(s: &str) -> Result<Self, Self::Err> {
+        s.parse::<u8>().map(|x| Gk(x, std::marker::PhantomData))
+    }
+}
+impl<T> std::fmt::Display for Gk<T> {
+    fn fmt(&self, f: &mut std::fmt::Formatter<'_>) -> std::fmt::Result {
+        write!(f, "{}", self.0)
+    }
+}
+
 /// Transparent probe: logs Enter/Exit around the inner type's deserialization.
 #[derive(Debug, Clone, Copy, PartialEq, Eq, Hash, PartialOrd, Ord, Default)]
 pub struct P<T>(pub T);
@@ -278,6 +293,20 @@ pub fn try_even_o<T: ConvIn>(x: T) -> Result<Option<Cv>, ConvErr> {
 }
 pub fn try_ref_o<T: ConvIn>(x: &T) -> Result<Option<Cv>, ConvErr> {
     try_ref(x).map(Some)
+}
+
+/// The field conversions with the intermediate type as result type: the value is taken modulo 256.
+pub fn from_inc_s(x: P<u8>) -> P<u8> {
+    P(from_inc(x).0 as u8)
+}
+pub fn from_ref_s(x: &P<u8>) -> P<u8> {
+    P(from_ref(x).0 as u8)
+}
+pub fn try_even_s(x: P<u8>) -> Result<P<u8>, ConvErr> {
+    try_even(x).map(|c| P(c.0 as u8))
+}
+pub fn try_ref_s(x: &P<u8>) -> Result<P<u8>, ConvErr> {
+    try_ref(x).map(|c| P(c.0 as u8))
 }
 
 /// Container-level `from`: wraps the dump of the intermediate value.
